@@ -1,0 +1,19 @@
+//go:build verif
+
+package state
+
+//@ func State12.InitCipherSuite
+//@ noinline
+//@ end
+
+//@ func Common.CommitNegotiatedExtensions
+//@ noinline
+//@ end
+
+//@ func Common.ResetConnectionIDs
+//@ noinline
+//@ end
+
+//@ func State12.SetRemoteServerKeyExchange
+//@ noinline
+//@ end
